@@ -85,6 +85,7 @@ def rules_for(pid):
             ("A19b", lambda c: RJ.a19b(c.P, c.E), 3),
             ("X-blocking-acq", _xacq("observer::", "internals::function_wrapper::"), 5),
             ("CLONE-SHARES", _xclone(2, "observer::", "internals::function_wrapper::"), 2),
+            ("F-slot-truth", lambda c: RO.f_slot_truth(c.P, c.E), 4),
         ],
         "C02": [
             ("H-complete", lambda c: RH.h_complete(c.P, c.E, c.H, scope_c02), 14),
@@ -107,6 +108,7 @@ def rules_for(pid):
             ("S-remove-and-test", lambda c: RO.s_remove_and_test(c.P, c.E), 1),
             ("D-atomic-latest", lambda c: _only(RJ.d_rules(c.P, c.E, c.H), ("D1", "D2"), ("sample", "debounce")), 2),
             ("GATE", lambda c: ROPS.gates_rule(c.P, c.E, c.H), 3),
+            ("AMB", lambda c: ROPS.amb_rule(c.P, c.E, c.H), 1),
         ],
         "C04": [
             ("H-error", lambda c: RH.h_error(c.P, c.E, c.H), 26),
@@ -117,6 +119,7 @@ def rules_for(pid):
             ("J-terminal", lambda c: _only(RJ.j_rules(c.P, c.E), ("J3", "J4", "J7")), 3),
             ("K-fresh-state", lambda c: RK.k_fresh_state(c.P, c.E, lambda root: root.startswith("operators::")
                                                         and root.split("::")[1] in RECOVERY), 3),
+            ("HANDOFF", lambda c: RS.handoff_rules(c.P, c.E, c.H), 3),
             ("OPSEM", lambda c: _only(ROPS.opsem_rule(c.P, c.E, c.H), ("operators::materialize::Materialize",
                                                                       "operators::dematerialize::Dematerialize")), 2),
         ],
@@ -128,8 +131,10 @@ def rules_for(pid):
             ("O-typestate", lambda c: RO.o_typestate(
                 c.P, c.E, ("callback after unsubscribe", "is_subscribed not false", "slot refilled")), 4),
             ("S-gate", lambda c: RO.s_gate(c.P, c.E), 3),
+            ("J1", lambda c: _only(RJ.j_rules(c.P, c.E), ("J1",)), 2),
             ("X-blocking-acq", _xacq("observer::", "internals::function_wrapper::", "subscription::"), 5),
             ("CLONE-SHARES", _xclone(2, "observer::", "subscription::"), 2),
+            ("F-slot-truth", lambda c: RO.f_slot_truth(c.P, c.E), 4),
         ],
         "C06": [
             ("H-early-stop", lambda c: RH.h_early_stop(c.P, c.E, c.H), 24),
@@ -196,9 +201,10 @@ def rules_for(pid):
             ("S-remove-and-test", lambda c: RO.s_remove_and_test(c.P, c.E), 1),
             ("S-fresh-serial", lambda c: RO.s_fresh_serial(c.P, c.E), 2),
             ("F-atomic-take", lambda c: RO.f_atomic_take(c.P, c.E), 3),
+            ("AMB", lambda c: ROPS.amb_rule(c.P, c.E, c.H), 1),
         ],
         "C12": [
-            ("J", lambda c: _only(RJ.j_rules(c.P, c.E), ("J2", "J3", "J6", "J7")), 5),
+            ("J", lambda c: _only(RJ.j_rules(c.P, c.E), ("J1", "J2", "J3", "J6", "J7")), 5),
             ("J8", lambda c: RJ.j_windows(c.P, c.E), 4),
             ("K-hot-state", lambda c: RX.k_hot_state(c.P, c.E, c.H), 3),
             ("X-blocking-acq", _xacq("subjects::"), 15),
@@ -209,6 +215,7 @@ def rules_for(pid):
             ("J", lambda c: _only(RJ.j_rules(c.P, c.E), ("J1", "J2", "J5", "J6", "J7")), 3),
             ("X-blocking-acq", _xacq("operators::ref_count::", "operators::replay::", "operators::publish::", "subjects::"), 15),
             ("CLONE-SHARES", _xclone(3, "operators::ref_count::", "operators::replay::", "operators::publish::"), 3),
+            ("OBS-fresh", lambda c: RX.obs_fresh(c.P, c.E, c.H), 30),
         ],
         "C15": [
             ("T1", lambda c: RS.t1_abort_wired(c.P, c.E), 3),
@@ -225,11 +232,13 @@ def rules_for(pid):
             ("F-atomic-take", lambda c: RO.f_atomic_take(c.P, c.E), 3),
             ("F-no-guard-call", lambda c: RO.f_no_guard_call(c.P, c.E), 3),
             ("X-blocking-acq", _xacq("observer::", "internals::function_wrapper::"), 5),
+            ("F-slot-truth", lambda c: RO.f_slot_truth(c.P, c.E), 4),
         ],
         "C14": [
             ("K-fresh-state", lambda c: RK.k_fresh_state(c.P, c.E), 28),
             ("K-fw-immutable", lambda c: RK.k_fw_immutable(c.P, c.E), 3),
             ("CLONE-SHARES", _xclone(40, "operators::", "observable::", "internals::function_wrapper::"), 40),
+            ("OBS-fresh", lambda c: RX.obs_fresh(c.P, c.E, c.H), 30),
         ],
     }
     return R.get(pid, [])
